@@ -46,6 +46,9 @@ impl<'a> TryFrom<&'a [u8]> for SnmpGetResponse<'a> {
             // Parse enclosing sequence
             let (rest, vs) = SnmpSequence::from_ber(v_tail)?;
             // Parse oid. May be either absolute or relative
+            if vs.0.is_empty() {
+                return Err(SnmpError::Incomplete);
+            }
             let (tail, oid) = match vs.0[0] as Tag {
                 TAG_OBJECT_ID => SnmpOid::from_ber(vs.0)?,
                 TAG_RELATIVE_OID => {
